@@ -257,11 +257,18 @@ def run_history_norefs(ops):
                 res = None
         elif kind == "clear":
             clears += 1
-            singleton.clear_true_singleton(classes[op["c"]])
+            r = oracles.outcome(singleton.clear_true_singleton, classes[op["c"]])
+            if r[0] != "ok":
+                found.append((f"clear:raised:{r[1].__name__}" + ("" if op["c"] in model else ":absent_entry"),
+                              f"op #{k} {op}: clear_true_singleton({op['c']}) raised"))
+                break
             model.pop(op["c"], None)
         else:
             clears += 1
-            singleton.clear_true_singleton()
+            r = oracles.outcome(singleton.clear_true_singleton)
+            if r[0] != "ok":
+                found.append((f"clear_all:raised:{r[1].__name__}", f"op #{k} {op}: clear_true_singleton() raised"))
+                break
             model.clear()
         pass  # refcounting frees the dropped instance at once (no cycles in these classes)
     return found, repeats, clears, len(touched)
